@@ -298,7 +298,7 @@ fn judge(entry: &str, o: &ObsErr, r: &RefOut, b: &[u8], start: Start, ctx: &mut 
     Ok(())
 }
 
-fn check(start: Start, b: &[u8], ctx: &mut Ctx) -> Result<(), Failure> {
+pub fn check(start: Start, b: &[u8], ctx: &mut Ctx) -> Result<(), Failure> {
     let rs = refdec::decode(start, b, false);
     let rl = refdec::decode(start, b, true);
     let res = catch(|| whole_packet_errors(start, b));
@@ -390,11 +390,18 @@ impl Property for C07 {
     fn id(&self) -> &'static str {
         "C07"
     }
+    fn post(&self, tier: Tier, seed: u64, root: &std::path::Path) -> Result<Value, Failure> {
+        if tier == Tier::Thorough {
+            crate::fuzzapi::run_fuzz_campaign("C07", root, seed, 400_000, 8)
+        } else {
+            Ok(Value::Null)
+        }
+    }
     fn tape_len(&self) -> usize {
         640
     }
     fn cases(&self, tier: Tier) -> u64 {
-        tier.pick(400_000, 8_000_000)
+        tier.pick(3_000_000, 60_000_000)
     }
     fn run_tape(&self, tape: &[u8], ctx: &mut Ctx) -> Result<(), Failure> {
         let mut t = Tape::new(tape);
